@@ -1,6 +1,7 @@
 import CnlDriver.CS
 import CnlModel.Wide
 import CnlSpec.Wide
+import CnlDriver.C10F
 /-!
 `C10` driver table: `cnl::wide_integer` over multi-limb `uintwide_t`.
 
@@ -19,6 +20,8 @@ independent of the limb type.  The model runs on limb lists (`Cnl.Wide`), the or
     lim <max|lowest|min|digits> <ty>     => <ty>:<hex> | <digits>
     dec <ty> <a>                         => decimal text (via operator<<)
     chars <ty> <a>                       => decimal text (via cnl::to_chars_static; values within numeric_limits)
+    w2f <ty> <f32|f64|f80> <a>           => hex float (CnlDriver/C10F.lean)
+    f2w <ty> <fmt> <hexfloat>            => <ty>:<hex>
 -/
 namespace Cnl.Drv
 open Cnl Cnl.Wide
@@ -46,7 +49,7 @@ def showHex (N : Nat) (v : Nat) : String := String.ofList ('x' :: hexDigits (N /
 def patToInt (N : Nat) (signed : Bool) (p : Nat) : Int :=
   if signed && decide (p ≥ 2^(N-1)) then (p : Int) - 2^N else p
 
-def wdFmt (ty : Ty) : Option (Fmt × Nat) :=
+def wdFmt (ty : Ty) : Option (Wide.Fmt × Nat) :=
   match ty with
   | .wd d (.int t) =>
     match storage d t with
@@ -54,7 +57,7 @@ def wdFmt (ty : Ty) : Option (Fmt × Nat) :=
     | .builtin _ => none
   | _ => none
 
-def showW (ty : Ty) (f : Fmt) (a : Limbs) : String := ty.toString ++ ":" ++ showHex f.N (Wide.toNat f.w a)
+def showW (ty : Ty) (f : Wide.Fmt) (a : Limbs) : String := ty.toString ++ ":" ++ showHex f.N (Wide.toNat f.w a)
 def showP (ty : Ty) (N : Nat) (x : Int) : String := ty.toString ++ ":" ++ showHex N (WideSpec.pattern N x)
 
 def divLabel (o : DivOut) : String :=
@@ -156,6 +159,8 @@ def checkC10 (toks : List String) (res : String) : Option Verdict :=
       | none => "TIMEOUT"
     let want := WideSpec.decimal (patToInt f.N f.signed pa)
     some { model := m, spec := some (want == res), branch := "chars" }
+  | "w2f" :: _ => checkC10F toks res
+  | "f2w" :: _ => checkC10F toks res
   | _ => none
 
 end Cnl.Drv
